@@ -39,17 +39,47 @@ def run_demo(d, demo):
     return p.returncode, (p.stdout + p.stderr)[-600:]
 
 
+def recheck(a):
+    dest = os.path.join(VERIF, "seeded", a.id)
+    meta = json.load(open(os.path.join(dest, "meta.json")))
+    patched = copy_repo()
+    try:
+        p = subprocess.run(["patch", "-p1", "-d", patched, "-i", os.path.join(dest, "patch.diff")], capture_output=True, text=True)
+        if p.returncode:
+            print("patch does not apply")
+            return 2
+        res = {}
+        for c in (a.checks or a.prop).split(","):
+            for s in a.seeds.split(","):
+                env = dict(os.environ, VF_REPO=patched, VERIF_SEED=s)
+                t0 = time.time()
+                p = subprocess.run([os.path.join(VERIF, "check"), c, a.tier], env=env, capture_output=True, text=True)
+                kinds = sorted({l.strip().split(" ")[0] for l in p.stdout.splitlines() if l.strip().startswith("kind=")})
+                res[f"{c}@seed{s}"] = {"exit": p.returncode, "caught": p.returncode == 1, "kinds": kinds[:6], "seconds": round(time.time() - t0)}
+                print(f"{a.id}: recheck {c} seed={s} -> exit {p.returncode} {'CAUGHT' if p.returncode == 1 else 'missed'} {kinds[:4]}")
+        meta["ran"]["checks_after_strengthening"] = res
+        meta["caught_by_after_strengthening"] = sorted({k.split("@")[0] for k, v in res.items() if v["caught"]})
+        with open(os.path.join(dest, "meta.json"), "w") as f:
+            json.dump(meta, f, indent=1)
+    finally:
+        shutil.rmtree(patched, ignore_errors=True)
+    return 0
+
+
 def main():
     ap = argparse.ArgumentParser()
     ap.add_argument("id")
-    ap.add_argument("worktree")
+    ap.add_argument("worktree", nargs="?")
     ap.add_argument("--prop", required=True)
-    ap.add_argument("--needs", required=True)
+    ap.add_argument("--needs", default="")
     ap.add_argument("--tests", nargs="*", default=[])
     ap.add_argument("--checks")
     ap.add_argument("--seeds", default="0,1,2")
     ap.add_argument("--tier", default="quick")
+    ap.add_argument("--recheck", action="store_true", help="only re-run the checks against the archived patch and record them under checks_after_strengthening")
     a = ap.parse_args()
+    if a.recheck:
+        return recheck(a)
     dest = os.path.join(VERIF, "seeded", a.id)
     os.makedirs(dest, exist_ok=True)
     patch = os.path.join(a.worktree, "patch.diff")
